@@ -33,6 +33,9 @@ type vRef struct {
 	epoch  uint64
 	ts     int64
 	closedRO bool
+	nReaders int
+	rdNext   map[int]int64 // live readers: position (next offset)
+	rdU      map[int]bool
 }
 
 func (r *vRef) newest() int64 { return r.next - 1 }
@@ -71,6 +74,8 @@ const (
 	opLastOff
 	opReadU
 	opReadC
+	opROpen // a reader kept alive across later operations
+	opRNext
 	opCount
 )
 
@@ -131,6 +136,13 @@ func (r *vRef) instantiate(op int, rnd *vRand, res *vResult) string {
 		if o < 0 {
 			o = 0
 		}
+		// a reader standing at or behind the truncation point is ended by the truncation (its
+		// segment is deleted, not replaced): truncations stay above the live readers
+		for _, nx := range r.rdNext {
+			if o <= nx {
+				o = nx + 1
+			}
+		}
 		kept := r.recs[:0:0]
 		for _, x := range r.recs {
 			if x.off < o {
@@ -143,6 +155,7 @@ func (r *vRef) instantiate(op int, rnd *vRand, res *vResult) string {
 		}
 		return fmt.Sprintf("truncate %d", o)
 	case opReopen:
+		r.rdNext, r.rdU = nil, nil
 		return "reopen"
 	case opSetHW:
 		o := r.newest()
@@ -162,16 +175,61 @@ func (r *vRef) instantiate(op int, rnd *vRand, res *vResult) string {
 		return fmt.Sprintf("read %d u", rnd.Intn(int(r.next)+2))
 	case opReadC:
 		return fmt.Sprintf("read %d c", rnd.Intn(int(r.next)+2))
+	case opROpen:
+		r.nReaders++
+		mode := "u"
+		if rnd.Intn(3) == 0 {
+			mode = "c"
+		}
+		st := int64(rnd.Intn(int(r.next) + 1))
+		if mode == "c" {
+			// committed readers are opened on committed offsets here; a start beyond the HW is
+			// C10's territory (known finding start-in-uncommitted-delivers-below-start)
+			if r.hw < 0 {
+				mode = "u"
+			} else {
+				st = int64(rnd.Intn(int(r.hw) + 1))
+			}
+		}
+		if r.rdNext == nil {
+			r.rdNext, r.rdU = map[int]int64{}, map[int]bool{}
+		}
+		if st <= r.newest() && (mode == "u" || true) { // creation beyond the end is refused
+			r.rdNext[r.nReaders], r.rdU[r.nReaders] = st, mode == "u"
+		}
+		return fmt.Sprintf("ropen r%d %d %s", r.nReaders, st, mode)
+	case opRNext:
+		if r.nReaders == 0 {
+			return "state"
+		}
+		id, n := 1+rnd.Intn(r.nReaders), 1+rnd.Intn(3)
+		if nx, ok := r.rdNext[id]; ok {
+			got := 0
+			for _, x := range r.recs {
+				if x.off >= nx && (r.rdU[id] || x.off <= r.hw) && got < n {
+					got++
+					r.rdNext[id] = x.off + 1
+				}
+			}
+		}
+		return fmt.Sprintf("rnext r%d %d", id, n)
 	}
 	panic("op")
 }
 
 // vC01Oracle checks the implementation's outputs of a program against the reference
 // semantics of the property itself (independent of the Lean model). Returns "" or what fails.
+type vRefReader struct {
+	next      int64
+	u         bool
+	overtaken bool // a truncation removed offsets at or below its position
+}
+
 func vC01Oracle(prog, impl []string) (string, string) {
 	var recs []vRefRec
 	next := int64(0)
 	hw := int64(-1)
+	readers := map[string]*vRefReader{}
 	for i, op := range prog {
 		f := strings.Fields(op)
 		out := impl[i]
@@ -219,8 +277,55 @@ func vC01Oracle(prog, impl []string) (string, string) {
 				recs = append(recs, vRefRec{off, ts, ep, p[3], p[4], p[5]})
 				next = off + 1
 			}
+		case "reopen":
+			readers = map[string]*vRefReader{}
+		case "ropen":
+			if out == "ok" {
+				st, _ := strconv.ParseInt(f[2], 10, 64)
+				readers[f[1]] = &vRefReader{next: st, u: f[3] == "u"}
+			} else {
+				delete(readers, f[1])
+			}
+		case "rnext":
+			rd := readers[f[1]]
+			if rd == nil {
+				continue
+			}
+			n, _ := strconv.Atoi(f[2])
+			var want []string
+			for _, x := range recs {
+				if x.off >= rd.next && (rd.u || x.off <= hw) && len(want) < n {
+					want = append(want, x.show())
+				}
+			}
+			if !rd.u && hw > next-1 {
+				continue
+			}
+			if out == "err" {
+				if rd.overtaken || len(want) == 0 {
+					delete(readers, f[1])
+					continue
+				}
+				return fmt.Sprintf("op %d (%s): live reader failed although %d retained messages follow its position %d", i, op, len(want), rd.next), "live-reader-error"
+			}
+			if out != strings.TrimRight("ok "+strings.Join(want, " "), " ") && out != "ok "+strings.Join(want, " ") {
+				if rd.overtaken {
+					continue
+				}
+				return fmt.Sprintf("op %d (%s): live reader at %d returned %q, want %q", i, op, rd.next, out, "ok "+strings.Join(want, " ")), "live-reader-mismatch"
+			}
+			if len(want) > 0 {
+				last := want[len(want)-1]
+				o, _ := strconv.ParseInt(strings.SplitN(last, ":", 2)[0], 10, 64)
+				rd.next = o + 1
+			}
 		case "truncate":
 			o, _ := strconv.ParseInt(f[1], 10, 64)
+			for _, rd := range readers {
+				if o <= rd.next {
+					rd.overtaken = true
+				}
+			}
 			kept := recs[:0:0]
 			for _, x := range recs {
 				if x.off < o {
@@ -357,7 +462,7 @@ func TestVerifC01(t *testing.T) {
 	if vThorough() {
 		maxLen = 4
 	}
-	alphabet := []int{opAppend1, opAppend2, opAppendSet, opTruncNewest, opTruncMid, opTruncAll, opReopen, opSetHW, opNewEpoch}
+	alphabet := []int{opAppend1, opAppend2, opAppendSet, opTruncNewest, opTruncMid, opTruncAll, opReopen, opSetHW, opNewEpoch, opROpen, opRNext}
 	var rec func(prefix []int)
 	rec = func(prefix []int) {
 		if len(prefix) > 0 {
